@@ -1917,11 +1917,15 @@ func (r *Resolvable) walkArray(arr *Array, value *astjson.Value) bool {
 		err := r.walkNode(arr.Item, arrayValue)
 		r.popArrayPathElement()
 		if err {
-			if arr.Item.NodeKind() == NodeKindObject && arr.Item.NodeNullable() {
+			if (arr.Item.NodeKind() == NodeKindObject || arr.Item.NodeKind() == NodeKindArray) && arr.Item.NodeNullable() {
 				value.SetArrayItem(r.astjsonArena, i, astjson.NullValue)
 				continue
 			}
 			if arr.Nullable {
+				if len(arr.Path) == 0 {
+					// A nested list has no key in its parent: let the enclosing list null this item.
+					return err
+				}
 				astjson.SetNull(r.astjsonArena, parent, arr.Path...)
 				return false
 			}
